@@ -27,6 +27,9 @@ class H2Client:
                                              validate_inbound_headers=False))
         if settings:
             self.h2.local_settings = h2.settings.Settings(client=True, initial_values=settings)
+            mfs = settings.get(h2.settings.SettingCodes.MAX_FRAME_SIZE)
+            if mfs:  # advertised from the start, so accept such frames from the start
+                self.h2.max_inbound_frame_size = mfs
         self.pos = 0
         self.ack_policy = ack_policy
         self.unacked: List[Tuple[int, int]] = []
